@@ -43,7 +43,18 @@ fn main() {
                     Err(e) => { eprintln!("xl17: cannot write {}.v: {}", file, e); std::process::exit(1) }
                 };
                 let _ = std::fs::write(&report_path, serde_json::to_string_pretty(&report).unwrap());
-                println!("xl17: {} ok: {} ({}.v {})", t, report["summary"].as_str().unwrap_or(""), file, if changed { "rewritten" } else { "unchanged" });
+                if report["ok"] == serde_json::json!(false) {
+                    eprintln!("xl17: {} FAILED CLOSED: {} ({}.v written so that the Coq side fails too)", t, report["summary"].as_str().unwrap_or(""), file);
+                    if let Some(a) = report["none_found"].as_array() {
+                        for x in a { eprintln!("  no guard found: {}", x.as_str().unwrap_or("")); }
+                    }
+                    if report["len_invariant"]["ok"] == serde_json::json!(false) { eprintln!("  length-invariant structure check failed: {}", report["len_invariant"]); }
+                    if report["dimension"]["ok"] == serde_json::json!(false) { eprintln!("  dimension-guard structure check failed: {}", report["dimension"]); }
+                    if report["dispatch_ok"] == serde_json::json!(false) { eprintln!("  CPU-feature dispatch check failed: {}", report["dispatch"]); }
+                    rc = 2;
+                } else {
+                    println!("xl17: {} ok: {} ({}.v {})", t, report["summary"].as_str().unwrap_or(""), file, if changed { "rewritten" } else { "unchanged" });
+                }
             }
             Err(e) => {
                 let _ = std::fs::write(&report_path, serde_json::to_string_pretty(&err_json(&e)).unwrap());
